@@ -1,4 +1,4 @@
-// VERIF: rc quick_shards=6
+// VERIF: rc quick_shards=6 fuzz=operator_programs
 // C10 - bitfield is observationally a set of enumerators.
 // Model: a 32-bit mask of enumerator indices. Exhaustive over all pairs of subsets for enums of
 // 1, 3, 8, 9 enumerators in u8/u16/u32/u64 words; seeded pairs for 17; rapidcheck-generated
